@@ -136,7 +136,8 @@ fn remove_in_class<Z, M>(
         let (entry, remove) = remove_in_class(subnode, name, level - 1);
         if remove {
             node.children.remove(&name[level - 1]);
-            (entry, node.children.is_empty())
+            // The node may only be pruned if it carries no entry itself.
+            (entry, node.children.is_empty() && node.data.is_none())
         } else {
             (entry, false)
         }
